@@ -500,12 +500,14 @@ def judge_c09(cfg, market, out, ctx):
     P = "C09"
     events = out.rec.events
     txns = sorted(out.rec.txns, key=lambda x: (x["t"], x["ev"]))
-    n = min(len(out.rec.pcm), len(out.rec.sizer))
-    for i in range(n):
-        p, s = out.rec.pcm[i], out.rec.sizer[i]
-        if p["orders"] is None or s["result"] is None:
+    for i in range(len(out.rec.pcm)):
+        p = out.rec.pcm[i]
+        s = p.get("sizer")
+        if p["orders"] is None or s is None or s["result"] is None:
             ctx.probe("c09_rebalance_raised:" + str(p["exc"]))
             continue
+        if s.get("bypassed"):
+            ctx.probe("construction_model_bypassed_the_sizer")
         t = p["t"]
         # holdings from the captured fills strictly before this call (the broker's own report is C02's)
         held = {}
@@ -514,7 +516,7 @@ def judge_c09(cfg, market, out, ctx):
                 held[x["asset"]] = held.get(x["asset"], 0) + x["qty"]
         held = dict((a, q) for a, q in held.items() if q != 0)
         target = dict(s["result"])
-        weights = out.rec.alpha[i]["weights"] if i < len(out.rec.alpha) else {}
+        weights = p.get("alpha") or {}
         want_assets = set(p["universe"]) | set(held) | set(weights)
         if not ctx.check(P, set(target) == want_assets, "target_asset_set_not_universe_held_weighted",
                          lambda: {"t": iso(t), "target": sorted(target), "expected": sorted(want_assets)},
